@@ -41,6 +41,8 @@ fn groups(tier: Tier) -> Vec<Vec<(&'static str, PropLit)>> {
         // the most negative value; keys whose byte length differs from their character count
         vec![("b", I(i64::MIN)), ("größe", I(42))],
         vec![("名前", S("n".into())), ("ñ", B(true)), ("a", I(7))],
+        // keys that a case style would rewrite: a key is the identifier as written, whatever serialize_all says
+        vec![("Teacher", S("t".into())), ("maxStudents", I(30)), ("min_len", B(true))],
     ];
     if tier == Tier::Thorough {
         g.extend(vec![vec![("b", I(i64::MIN))], vec![("fn", B(true)), ("type", I(-7))], vec![("A", I(42))], vec![("ab", B(false)), ("a", S("a".into()))]]);
@@ -105,6 +107,12 @@ fn alphabet(n: usize, tier: Tier) -> Vec<Dev> {
                 true
             }));
         }
+    }
+    for st in ["snake_case", "SCREAMING-KEBAB-CASE", "PascalCase"] {
+        d.push(dev(format!("serialize_all={:?} (does not apply to property keys)", st), &["style"], move |s| {
+            s.serialize_all = Some(st.to_string());
+            true
+        }));
     }
     d.extend(crate::devs::rich_generic_devs(true));
     d.extend(crate::devs::context_devs());
